@@ -365,6 +365,11 @@ func (r *Run) DisarmAll() {
 // Hook is installed as the library's yield hook. It parks the calling goroutine
 // if it is a harness task and the site is armed; anything else passes through.
 func (r *Run) Hook(site string) {
+	if site == "client.closing" {
+		// the client has taken its first fatal error (or the cancellation) and begins to shut its routines down
+		r.holdsOff.Store(true)
+		return
+	}
 	r.mu.Lock()
 	if d, ok := r.delays[site]; ok {
 		// a goroutine the library started itself (never a harness task): it waits d of simulated time, which
